@@ -47,7 +47,38 @@ pub fn value_to_literal(prg: &TypedProgram, ty: &Type, v: &Value) -> Literal {
     }
 }
 
-fn rand_int(rng: &mut Rng, min: i128, max: i128, wide: bool) -> i128 {
+/// integer literals occurring in the source text, with their type suffix (boundary-directed inputs)
+pub fn source_constants(src: &str) -> Vec<(i128, String)> {
+    let mut out = vec![];
+    let b = src.as_bytes();
+    let mut i = 0;
+    while i < b.len() {
+        if b[i].is_ascii_digit() && (i == 0 || !(b[i - 1].is_ascii_alphanumeric() || b[i - 1] == b'_')) {
+            let st = i;
+            while i < b.len() && b[i].is_ascii_digit() { i += 1; }
+            let sfx_start = i;
+            while i < b.len() && b[i].is_ascii_alphanumeric() { i += 1; }
+            if let Ok(v) = src[st..sfx_start].parse::<i128>() {
+                let neg = st > 0 && b[st - 1] == b'-';
+                out.push((if neg { -v } else { v }, src[sfx_start..i].to_string()));
+            }
+        } else { i += 1; }
+    }
+    out.sort(); out.dedup();
+    out
+}
+
+thread_local! { static CONSTS: std::cell::RefCell<Vec<(i128, String)>> = std::cell::RefCell::new(vec![]); }
+pub fn set_constants(c: Vec<(i128, String)>) { CONSTS.with(|x| *x.borrow_mut() = c); }
+
+fn rand_int(rng: &mut Rng, min: i128, max: i128, wide: bool, tyname: &str) -> i128 {
+    // one time in two: a constant of the same type from the program text, or a neighbour of it
+    let pick = CONSTS.with(|x| {
+        let c = x.borrow();
+        let same: Vec<i128> = c.iter().filter(|(_, s)| s == tyname).map(|(v, _)| *v).collect();
+        if !same.is_empty() && rng.chance(1, 2) { Some(same[rng.below(same.len())] + (rng.below(3) as i128 - 1)) } else { None }
+    });
+    if let Some(v) = pick { let lim = if wide { 1i128 << 29 } else { i128::MAX }; if v >= min && v <= max && v.abs() < lim { return v; } }
     // boundary-biased; for wide types only small magnitudes (the model's limit)
     let (lo, hi) = if wide { (min.max(-1000), max.min(1000)) } else { (min, max) };
     match rng.below(10) {
@@ -64,11 +95,11 @@ pub fn gen_value(prg: &TypedProgram, ty: &Type, rng: &mut Rng) -> Option<Value> 
         Type::Bool => json!(rng.below(2)),
         Type::Unsigned(t) => {
             let (max, wide) = match t { UnsignedNumType::U8 => (255, false), UnsignedNumType::U16 => (65535, false), UnsignedNumType::Unspecified => return None, _ => (1i128 << 31, true) };
-            json!(rand_int(rng, 0, max, wide) as i64)
+            json!(rand_int(rng, 0, max, wide, crate::proj::uty(t)) as i64)
         }
         Type::Signed(t) => {
             let (min, max, wide) = match t { SignedNumType::I8 => (-128, 127, false), SignedNumType::I16 => (-32768, 32767, false), SignedNumType::Unspecified => return None, _ => (-(1i128 << 31), 1i128 << 31, true) };
-            json!(rand_int(rng, min, max, wide) as i64)
+            json!(rand_int(rng, min, max, wide, crate::proj::sty(t)) as i64)
         }
         Type::Array(e, n) => { let mut v = vec![]; for _ in 0..*n { v.push(gen_value(prg, e, rng)?); } Value::Array(v) }
         Type::Tuple(fs) => { let mut v = vec![]; for f in fs { v.push(gen_value(prg, f, rng)?); } Value::Array(v) }
@@ -97,6 +128,7 @@ pub fn eval_event(id: &str, src: &str, inputs: Option<&Vec<Value>>, nruns: usize
     let ptys: Vec<Value> = p0.main.params.iter().map(|p| pr.ty(&p.ty)).collect();
     let ret = pr.ty(&p0.main.ty);
     if !pr.oom.is_empty() { return json!({"ev":"Skip","id":id,"why":format!("outside the model: {}", pr.oom[0])}); }
+    set_constants(source_constants(src));
     let mut tuples: Vec<Vec<Value>> = vec![];
     match inputs {
         Some(list) => for t in list { tuples.push(t.as_array().unwrap().clone()); },
